@@ -31,7 +31,7 @@ ANCHORS = [
     "acnportal.acnsim.interface:Interface._infrastructure_info",
     "acnportal.algorithms.utils:infrastructure_constraints_feasible",
 ]
-REQUIRED = ["schedules_given_as_a_mapping_other_than_dict", "schedules_in_which_every_station_discharges", "history_op:update_with_a_current_derived_from_the_registered_object", "schedules_whose_currents_cancel_across_stations", "schedules_of_over_1000_periods", "decisive_column_positions_judged", "integer_row_first_in_mapping", "explicit_tolerances_differ_from_network", "explicit_zero_tolerance_on_tolerant_network", "phasor_judged", "linear_judged", "near_boundary_judged", "constraint_free_sim_runs", "history_rejudged",
+REQUIRED = ["schedules_given_as_a_mapping_other_than_dict", "malformed_candidates_with_tolerances_of_their_own_refused_before_judging", "schedules_in_which_every_station_discharges", "history_op:update_with_a_current_derived_from_the_registered_object", "schedules_whose_currents_cancel_across_stations", "schedules_of_over_1000_periods", "decisive_column_positions_judged", "integer_row_first_in_mapping", "explicit_tolerances_differ_from_network", "explicit_zero_tolerance_on_tolerant_network", "phasor_judged", "linear_judged", "near_boundary_judged", "constraint_free_sim_runs", "history_rejudged",
             "history_op:remove_not_last", "history_op:update", "history_op:update_rename", "history_op:add",
             "regime:phasor-accept", "regime:phasor-reject", "regime:linear-accept", "regime:linear-reject",
             "regime:T>1", "regime:mixed-sign"]
@@ -326,6 +326,16 @@ def _judge(nd, S, obs, ts=1e-7, omit=False, oseed=0, use_defaults=False, tag=Non
                     return len(self._d)
             sched = Table(sched)
         obs.ev("schedules_given_as_a_mapping_other_than_dict")
+    if rng.random() < 0.2 and len(ids) >= 1:
+        # earlier in the same batch a malformed candidate (one station row too many / too few) was checked with generous
+        # tolerances of its own; that call raises, the caller moves on to the next candidate: the verdicts below are what they
+        # would have been without it
+        wrong = np.ones((len(ids) + rng.choice([1, 2, -1]) if len(ids) > 1 else len(ids) + 1, T))
+        try:
+            net.is_feasible(wrong, linear=rng.random() < 0.3, violation_tolerance=rng.choice([5.0, 50.0]), relative_tolerance=rng.choice([0.2, 0.5]))
+            obs.ev("malformed_candidate_with_own_tolerances_accepted_not_judged")
+        except Exception:
+            obs.ev("malformed_candidates_with_tolerances_of_their_own_refused_before_judging")
     info = iface.infrastructure_info()
     mixed = any(any(x < 0 for x in row) and any(x > 0 for x in row) for row in A)
     res = {}
